@@ -376,6 +376,18 @@ pub fn catalogue(rng: &mut Rng) -> Vec<Scenario> {
         // a lookup parked between the index read and the read of the event bytes while the event is removed / replaced
         v.push(Scenario { name: "get-vs-remove".into(), events: ev.clone(), filters: vec![f.clone()], prepopulate: vec![0, 1, 2, 3], ops: vec![Opk::Get(id), Opk::Remove(id)] });
         v.push(Scenario { name: "has-vs-remove".into(), events: ev.clone(), filters: vec![f.clone()], prepopulate: vec![0, 1, 2, 3], ops: vec![Opk::Has(id), Opk::Remove(id)] });
+        // removal vs the store of an unrelated event, of the removed event itself (re-submission) and a second removal:
+        // two writers that need nothing from each other but the write lock
+        {
+            let mut ev2 = base(rng);
+            ev2.push(mk(rng, 0, 1, 160, vec![]));
+            let n2 = ev2.len();
+            let f2 = SemFilter { authors: vec![author(0), author(1)], kinds: vec![1], ..SemFilter::empty() };
+            v.push(Scenario { name: "remove-vs-store-of-another".into(), events: ev2.clone(), filters: vec![f2.clone()], prepopulate: vec![0, 1, 2, 3], ops: vec![Opk::Remove(id), Opk::Store(n2 - 1)] });
+            v.push(Scenario { name: "store-of-another-vs-remove".into(), events: ev2.clone(), filters: vec![f2.clone()], prepopulate: vec![0, 1, 2, 3], ops: vec![Opk::Store(n2 - 1), Opk::Remove(id), Opk::Find(0)] });
+            v.push(Scenario { name: "remove-vs-resubmission".into(), events: ev2.clone(), filters: vec![f2.clone()], prepopulate: vec![0, 1, 2, 3], ops: vec![Opk::Remove(id), Opk::Store(1)] });
+            v.push(Scenario { name: "remove-vs-remove-of-another".into(), events: ev2.clone(), filters: vec![f2], prepopulate: vec![0, 1, 2, 3], ops: vec![Opk::Remove(id), Opk::Remove(ev2[0].sem.id)] });
+        }
         let mut ev3 = ev.clone();
         ev3.push(mk(rng, 0, 10002, 180, vec![]));
         let holder = ev3[2].sem.id;
@@ -826,10 +838,10 @@ pub fn classify_hang(rep: &mut Report, gdb_text: &str, what: &str) {
             &format!("{what}: no progress for 30 s; gdb shows a writer in MmapAppend::resize waiting for the map's write lock while a reader inside MmapAppend::deref waits in get_end for a second read lock behind it. {}", excerpt.join(" || ")),
             json!({"kind":"hang","what":what}),
         );
-    } else if others == 0 && lock_waiters.len() >= 2 && kinds.0 && kinds.1 {
+    } else if others == 0 && lock_waiters.len() >= 2 {
         rep.finding(
             "deadlock:every-thread-waits-to-acquire-a-lock",
-            &format!("{what}: no progress for 30 s; gdb shows all {} non-idle threads waiting to acquire a lock inside the library (at least one for writing, one for reading) and no thread that could release one: {}", lock_waiters.len(), distinct.iter().cloned().collect::<Vec<_>>().join(" || ")),
+            &format!("{what}: no progress for 30 s; gdb shows all {} non-idle threads waiting to acquire a lock inside the library (rwlock for writing: {}, for reading: {}) and no thread that could release one: {}", lock_waiters.len(), kinds.0, kinds.1, distinct.iter().cloned().collect::<Vec<_>>().join(" || ")),
             json!({"kind":"hang","what":what}),
         );
     } else {
